@@ -1,5 +1,6 @@
 (* Properties/C08.v — !notnew (and command-line overrides) can change but never create paths. *)
 From AY Require Import Model.Merge Proofs.NotNew Proofs.FactsOk Model.Cmdline Proofs.CmdlineLemmas Model.Loader Proofs.MergePlain Proofs.Override Proofs.OverrideLoad.
+From AY Require Import Spec.Update Spec.UpdateNN Proofs.UpdateNNLemmas Proofs.MergeNotNew.
 
 (* merging a key that does not exist yet, offered by a node that does not allow new paths, is a MergeError —
    for every older container (mapping or list; for a list: every index that is not an existing one), every rec, every depth *)
@@ -52,6 +53,48 @@ Theorem C08_override_mistyped_path_is_an_error : forall c k ks v fuel p s,
   exists q, on_merge [] fuel p s (load_doc c (override_doc k ks v)) = Err EMerge q.
 Proof. exact cmdline_override_mistyped. Qed.
 Print Assumptions C08_override_mistyped_path_is_an_error.
+
+(* THE GLOBAL STATEMENT for tag-free content.  Any number of tag-free mapping documents (unique keys) followed by ANY tag-free
+   mapping document marked !notnew at its root (as the loader builds it: Model.Loader.load_doc on the tagged graph): the model of
+   Builder.flatten succeeds exactly when the no-new-path update Spec.UpdateNN.upd_nn of the config built so far does, with
+   exactly that content; otherwise it is a MergeError.  upd_nn refuses a key that does not exist yet (at any depth, through
+   mappings and list indices) and a replacing list / value that would bring a path the old value does not have. *)
+Theorem C08_notnew_is_update_without_new_paths : forall e c d0 rest kv,
+  forallb (fun d => is_PD (d_data d)) (d0 :: rest) = true ->
+  Forall (fun d => puk (d_data d)) (d0 :: rest) -> puk (PD kv) ->
+  match (do a <- upd_fold (d_data d0) (map d_data rest); upd_nn a (PD kv)) with
+  | Ok r => exists n, flatten e (map load_plain (d0 :: rest) ++ [load_doc c (notnew_doc kv)]) = Ok n /\ erase n = r
+  | Err _ _ => exists q, flatten e (map load_plain (d0 :: rest) ++ [load_doc c (notnew_doc kv)]) = Err EMerge q
+  end.
+Proof. exact flatten_notnew_last. Qed.
+Print Assumptions C08_notnew_is_update_without_new_paths.
+
+(* ... afterwards no path exists that did not exist before: every path of the result is a path of the config built so far *)
+Theorem C08_no_new_path : forall d a r, upd_nn a d = Ok r -> forall q, ppath r q = true -> ppath a q = true.
+Proof. exact upd_nn_no_new_path. Qed.
+Print Assumptions C08_no_new_path.
+
+(* ... and when it succeeds it changed what an ordinary merge of the same content would have changed *)
+Theorem C08_notnew_agrees_with_plain_merge : forall d a r, upd_nn a d = Ok r -> upd a d = Ok r.
+Proof. exact upd_nn_sound. Qed.
+Print Assumptions C08_notnew_agrees_with_plain_merge.
+
+(* non-vacuity: an overlay that changes a nested scalar and shrinks a list is accepted; one that adds a key two levels down,
+   one that makes a list longer and one that turns a scalar into a non-empty mapping are MergeErrors *)
+Example C08_notnew_example :
+  let d := mkD None None (Some true) 1 (PD [(KS 1, PD [(KS 2, PS (SInt 1)); (KS 3, PL [PS (SInt 7); PS (SInt 8)])]); (KS 5, PS (SInt 2))]) in
+  let c := mkLC (Some true) 2 in
+  let run kv := match flatten [] (map load_plain [d] ++ [load_doc c (notnew_doc kv)]) with Ok n => Some (erase n) | Err _ _ => None end in
+  run [(KS 1, PD [(KS 2, PS (SInt 9)); (KS 3, PL [PS (SInt 0)])])] = Some (PD [(KS 1, PD [(KS 2, PS (SInt 9)); (KS 3, PL [PS (SInt 0)])]); (KS 5, PS (SInt 2))]) /\
+  run [(KS 1, PD [(KS 4, PS (SInt 9))])] = None /\
+  run [(KS 1, PD [(KS 3, PL [PS (SInt 0); PS (SInt 1); PS (SInt 2)])])] = None /\
+  run [(KS 5, PD [(KS 6, PS (SInt 1))])] = None /\
+  puk (PD [(KS 1, PD [(KS 4, PS (SInt 9))])]).
+Proof.
+  repeat split; try (vm_compute; reflexivity).
+  constructor; [repeat constructor; cbn; intuition discriminate|].
+  repeat constructor; cbn; intuition discriminate.
+Qed.
 
 (* non-vacuity:  model.layers[1].k=9  over a base with mappings and a list; a mistyped key; an index beyond the end *)
 Example C08_override_example :
